@@ -290,6 +290,15 @@ func (e *env) end(w *world, expect string, settle time.Duration) (discsBeforeClo
 	return
 }
 
+// abort drops a scenario that could not be set up: its records are not written
+func (e *env) abort(w *world) {
+	vtrace.SetObjectFilter(func(any) bool { return false })
+	vtrace.Take()
+	w.close()
+	time.Sleep(20 * time.Millisecond)
+	vtrace.Take()
+}
+
 // ---- patterns -------------------------------------------------------------------
 
 // outage: connected, link down (refused), j failed attempts, then healed - or held down until the client gives up
@@ -302,7 +311,7 @@ func (e *env) outage(cf conf, j int, before, online, offline, after string, then
 	w.connect()
 	if !w.waitConnected(5 * time.Second) {
 		e.res.Inconclusive("c15", "no initial connect", id)
-		e.end(w, "connected", time.Second)
+		e.abort(w)
 		return
 	}
 	w.emits(online)
@@ -369,7 +378,7 @@ func (e *env) flap(cf conf, cycles int, rng *rand.Rand) {
 	w.connect()
 	if !w.waitConnected(5 * time.Second) {
 		e.res.Inconclusive("c15", "no initial connect", id)
-		e.end(w, "connected", time.Second)
+		e.abort(w)
 		return
 	}
 	kinds := "pvab"
@@ -498,6 +507,8 @@ func (e *env) hole(cf conf, expect string) {
 	w.connect()
 	if !w.waitConnected(5 * time.Second) {
 		e.res.Inconclusive("c15", "no initial connect", id)
+		e.abort(w)
+		return
 	}
 	w.down("hole")
 	w.waitDisconnected(4 * time.Second)
